@@ -48,6 +48,8 @@ def run(prog, res):
   _order(prog, res)
   affine_rules.check_local_repairs(prog, res)
   affine_rules.check_bounds_map(prog, res)
+  affine_rules.check_A4_strict(prog, res)
+  res.floor('A4', 5)
   # the strict repairs visit every adjacent pair / 2x2 square
   n = stencil.check_stencils(
       prog, res, prog.function(LL + '._approximately_project_edgeworth'),
